@@ -128,7 +128,8 @@ class SeqCheck:
                 astats, d3 = seqsuite.run(ctx, os.path.join(bindir, 'asyncrun'), [('arand', ['arand', ctx.seed, n, 20, 100])], mode='async')
                 divs += d3; stats.steps += astats.steps; stats.histories += astats.histories; stats.distinct |= astats.distinct
                 ctx.notes['async_suite'] = astats.summary()
-        if self.extra: self.extra(ctx, seqrun, stats, divs)
+        # (an operation that does not return was seen: the probes would hang as well - the history at hand is the failing input)
+        if self.extra and not seqsuite.HUNG: self.extra(ctx, seqrun, stats, divs)
         self.decide(ctx, divs, proof_broken, log)
         cov = {'evaluations': stats.steps, 'distinct_nontrivial': len(stats.distinct),
                'rule': 'one evaluation = one operation of a generated history executed on the extracted Coq model, on the Spec and on the real crate and compared line by line '
@@ -393,7 +394,7 @@ class VariantCheck(SeqCheck):
                         txt = '\n'.join(['# C13: variants disagree', ref[1]] + ref[2][:k] + [f'## step {k - 1}: variant {ref[0]} printed: {ref[3][k] if k < len(ref[3]) else "<missing>"}',
                                          f'## step {k - 1}: variant {v[0]} printed: {v[3][k] if k < len(v[3]) else "<missing>"}', '## second variant:', v[1]])
                         ctx.violation(f'buffer variants {ref[0]} and {v[0]} give different observable results on the same history', txt)
-        if not ctx.violations:
+        if not ctx.violations and not seqsuite.HUNG:
             # the same contents in every cell whatever the storage (from(array) / from(vec) / default), the same start after every split
             c18_splitprobe(ctx, seqrun, stats, divs)
         if not ctx.violations:
@@ -603,7 +604,7 @@ class AsyncCheck(SeqCheck):
         stats, divs = seqsuite.run(ctx, runner, self.suites(ctx), mode='async', satlog=satlog)
         extra = {}
         if self.wake_oracle: extra = self.wake_check(ctx, satlog)
-        if ctx.prop in ('C14', 'C15'):
+        if ctx.prop in ('C14', 'C15') and not seqsuite.HUNG:
             # futures of iterators created by EVERY async split, the by-value splits of a stack buffer that was used before included
             # (fresh async iterators against the indices of the previous session would resolve with items nobody produced)
             c18_splitprobe(ctx, runner, stats, divs)
